@@ -8,12 +8,18 @@
  *                                    the script's probes (validate_r, for_each v4/v6, get_all, search_by_ski) and
  *                                    log every result together with the window of the writer's operation counter:
  *                                    a = operations completed before the call, b = operations started before the return.
+ *                                    Writer op `kcheck` (sequential variant of C06): the writing thread itself enumerates
+ *                                    the live router-key table through spki_table_search_by_ski (all 256 constant-byte
+ *                                    SKIs) and looks every listed key up again through spki_table_get_all; "K" line.
+ *                                    Every reload also logs the geometry of the live router-key hash table before and
+ *                                    after ("G" line, and an "H" history line on stderr that survives a crash).
  *   locks_harness xtable <script>    C06 cross-table schedule: a reader is parked inside a read section of the live
  *                                    router-key table (the harness holds the read lock on its behalf) while the real
  *                                    reload runs; a second reader validates a route and then looks up a router key.
  *
- * Output: "W <k> <rc>" per writer operation, "R <tid> <probe> <a> <b> <state> <count> <hash>" per reader
- * observation, "X ..." lines in xtable mode, "done" at the end.  ThreadSanitizer reports go to TSAN_OPTIONS=log_path.
+ * Output: "W <k> <rc>" per writer operation, "G <k> <count> <buckets> <count'> <buckets'>" per reload,
+ *         "K <k> <nlist> <hlist> <nfound> <hfound> <hashcount> <buckets>" per kcheck,
+ *         "R <tid> <probe> <a> <b> <state> <count> <hash>" per reader observation, "X ..." lines in xtable mode, "done" at the end.  ThreadSanitizer reports go to TSAN_OPTIONS=log_path.
  * The version counters use relaxed atomics so that they do not add happens-before edges that would hide races.
  */
 #define _GNU_SOURCE
@@ -27,7 +33,7 @@
 
 #define NSRC 4
 #define MAXOPS 200000
-#define MAXPROBES 512
+#define MAXPROBES 4096
 #define MAXREADERS 16
 
 static struct pfx_table live_pfx;
@@ -133,7 +139,7 @@ static uint64_t hash_key(const struct spki_record *r)
 }
 
 /* ---- script ------------------------------------------------------------------------------------------- */
-enum opk { OP_ADD, OP_RM, OP_SRCRM, OP_KADD, OP_KRM, OP_KSRCRM, OP_RELOAD, OP_PAUSE };
+enum opk { OP_ADD, OP_RM, OP_SRCRM, OP_KADD, OP_KRM, OP_KSRCRM, OP_RELOAD, OP_PAUSE, OP_KCHECK };
 struct op {
 	enum opk k;
 	struct pfx_record pr;
@@ -142,6 +148,7 @@ struct op {
 	unsigned int usec;
 	uint8_t *pdus; /* reload: byte stream */
 	size_t pdulen;
+	unsigned int npfx, nkeys; /* reload: announced records */
 };
 enum prk { PR_VAL, PR_E4, PR_E6, PR_KEY, PR_SKI };
 struct probe {
@@ -159,6 +166,7 @@ static int nprobes;
 static int nreaders = 4;
 static int minreads = 50;
 static int maxrec = 100000;
+static int history; /* header `history 1`: log reloads / kchecks on stderr as they happen (survives a crash) */
 
 static _Atomic unsigned int ver_begin, ver_end;
 static _Atomic int writer_done;
@@ -344,6 +352,8 @@ static bool load_script(const char *path)
 			minreads = atoi(w[1]);
 		} else if (!strcmp(w[0], "maxrec") && n == 2) {
 			maxrec = atoi(w[1]);
+		} else if (!strcmp(w[0], "history") && n == 2) {
+			history = atoi(w[1]);
 		} else if (!strcmp(w[0], "probe") && n >= 2) {
 			struct probe *p;
 
@@ -395,6 +405,10 @@ static bool load_script(const char *path)
 
 			o->k = OP_KSRCRM;
 			o->src = atoi(w[1]);
+		} else if (!strcmp(w[0], "kcheck") && n == 1) {
+			struct op *o = &ops[nops++];
+
+			o->k = OP_KCHECK;
 		} else if (!strcmp(w[0], "pause") && n == 2) {
 			struct op *o = &ops[nops++];
 
@@ -414,11 +428,13 @@ static bool load_script(const char *path)
 				if (!parse_rec(w + 2, 5, &r, &s, false))
 					return false;
 				append_pfx_pdu(cur, &r);
+				cur->npfx++;
 			} else if (!strcmp(w[1], "k") && n == 5) {
 				struct spki_record k;
 
 				mk_key(&k, (uint32_t)strtoul(w[2], NULL, 10), atoi(w[3]), atoi(w[4]), cur->src);
 				append_key_pdu(cur, &k);
+				cur->nkeys++;
 			} else {
 				return false;
 			}
@@ -435,18 +451,113 @@ static bool load_script(const char *path)
 	return true;
 }
 
+/* ---- geometry of the live router-key hash table (public tommyds calls only; called by the writing thread) -------- */
+struct geo {
+	unsigned int count, buckets;
+};
+static unsigned int cur_op; /* index of the writer operation being executed */
+
+struct geolog {
+	unsigned int k;
+	struct geo before, after;
+};
+static struct geolog *geolog;
+static int ngeolog;
+
+struct kchk {
+	unsigned int k, nlist, nfound, hashcount, buckets;
+	uint64_t hlist, hfound;
+};
+static struct kchk *kchklog;
+static int nkchklog;
+
+static struct geo live_geo(void)
+{
+	struct geo g;
+	size_t mem = tommy_hashlin_memory_usage(&live_spki.hashtable);
+
+	g.count = (unsigned int)tommy_hashlin_count(&live_spki.hashtable);
+	g.buckets = (unsigned int)((mem - (size_t)g.count * sizeof(tommy_hashlin_node)) / sizeof(void *));
+	return g;
+}
+
 /* ---- the real reload path ------------------------------------------------------------------------------ */
 static int do_reload(struct op *o)
 {
 	struct rtr_socket *s = &socks[o->src];
 	struct mock *m = &mocks[o->src];
+	struct geo g0 = live_geo(), g1;
+	int rc;
 
+	if (history)
+		fprintf(stderr, "H op=%u reload src=%d announces %u prefixes %u router keys; live router-key table before: %u keys in %u buckets\n",
+		cur_op, o->src, o->npfx, o->nkeys, g0.count, g0.buckets);
 	m->buf = o->pdus;
 	m->len = o->pdulen;
 	m->pos = 0;
 	s->is_resetting = true;
 	s->state = RTR_SYNC;
-	return rtr_sync_receive_and_store_pdus(s);
+	rc = rtr_sync_receive_and_store_pdus(s);
+	g1 = live_geo();
+	if (history)
+		fprintf(stderr, "H op=%u reload rc=%d; live router-key table after: %u keys in %u buckets\n", cur_op, rc, g1.count,
+		g1.buckets);
+	if (geolog) {
+		geolog[ngeolog].k = cur_op;
+		geolog[ngeolog].before = g0;
+		geolog[ngeolog].after = g1;
+		ngeolog++;
+	}
+	return rc;
+}
+
+/* sequential check by the writing thread: the list side (search_by_ski over every constant-byte SKI = every key a
+ * script can store) and the hash side (get_all of every listed key must return that very record) */
+static int do_kcheck(void)
+{
+	struct kchk c;
+	struct geo g;
+
+	memset(&c, 0, sizeof(c));
+	c.k = cur_op;
+	if (history)
+		fprintf(stderr, "H op=%u kcheck (enumerate the live router-key table, look every key up)\n", cur_op);
+	for (int b = 0; b < 256; b++) {
+		struct spki_record *res = NULL;
+		unsigned int n = 0;
+		uint8_t ski[SKI_SIZE];
+
+		memset(ski, b, SKI_SIZE);
+		if (spki_table_search_by_ski(&live_spki, ski, &res, &n) != SPKI_SUCCESS)
+			return -1;
+		for (unsigned int i = 0; i < n; i++) {
+			struct spki_record *r2 = NULL;
+			unsigned int n2 = 0;
+
+			c.nlist++;
+			c.hlist += hash_key(&res[i]);
+			if (spki_table_get_all(&live_spki, res[i].asn, res[i].ski, &r2, &n2) != SPKI_SUCCESS) {
+				free(res);
+				return -2;
+			}
+			for (unsigned int j = 0; j < n2; j++) {
+				if (r2[j].asn == res[i].asn && r2[j].socket == res[i].socket &&
+				    !memcmp(r2[j].ski, res[i].ski, SKI_SIZE) && !memcmp(r2[j].spki, res[i].spki, SPKI_SIZE)) {
+					c.nfound++;
+					c.hfound += hash_key(&r2[j]);
+					break;
+				}
+			}
+			free(r2);
+		}
+		free(res);
+	}
+	g = live_geo();
+	c.hashcount = g.count;
+	c.buckets = g.buckets;
+	if (kchklog)
+		kchklog[nkchklog++] = c;
+	return 0;
 }
 
 static int exec_op(struct op *o)
@@ -466,6 +577,8 @@ static int exec_op(struct op *o)
 		return spki_table_src_remove(&live_spki, &socks[o->src]);
 	case OP_RELOAD:
 		return do_reload(o);
+	case OP_KCHECK:
+		return do_kcheck();
 	case OP_PAUSE:
 		usleep(o->usec);
 		return 0;
@@ -604,6 +717,8 @@ static int stress(void)
 	pthread_t th[MAXREADERS];
 	int *rcs = calloc((size_t)nops + 1, sizeof(int));
 
+	geolog = calloc((size_t)nops + 1, sizeof(*geolog));
+	kchklog = calloc((size_t)nops + 1, sizeof(*kchklog));
 	for (int i = 0; i < nreaders; i++) {
 		obsbuf[i] = calloc((size_t)maxrec, sizeof(struct obs));
 		pthread_create(&th[i], NULL, reader_main, (void *)(intptr_t)i);
@@ -619,6 +734,7 @@ static int stress(void)
 			continue;
 		}
 		k++;
+		cur_op = k;
 		atomic_store_explicit(&ver_begin, k, memory_order_relaxed);
 		rcs[k] = exec_op(&ops[i]);
 		atomic_store_explicit(&ver_end, k, memory_order_relaxed);
@@ -629,6 +745,12 @@ static int stress(void)
 		pthread_join(th[i], NULL);
 	for (unsigned int j = 1; j <= k; j++)
 		printf("W %u %d\n", j, rcs[j]);
+	for (int j = 0; j < ngeolog; j++)
+		printf("G %u %u %u %u %u\n", geolog[j].k, geolog[j].before.count, geolog[j].before.buckets, geolog[j].after.count,
+		       geolog[j].after.buckets);
+	for (int j = 0; j < nkchklog; j++)
+		printf("K %u %u %llu %u %llu %u %u\n", kchklog[j].k, kchklog[j].nlist, (unsigned long long)kchklog[j].hlist,
+		       kchklog[j].nfound, (unsigned long long)kchklog[j].hfound, kchklog[j].hashcount, kchklog[j].buckets);
 	for (int t = 0; t < nreaders; t++)
 		for (int i = 0; i < nobs[t]; i++) {
 			struct obs *o = &obsbuf[t][i];
